@@ -42,6 +42,17 @@ var abciPanicTable = []panicAllow{
 	{"*", "call:github.com/cosmos/cosmos-sdk/codec.BinaryCodec.MustMarshal", 0, whyCodecM},
 	{"*", "call:github.com/cosmos/cosmos-sdk/types.MustAccAddressFromBech32", 0, whyAddr},
 	{"*", "call:github.com/cosmos/cosmos-sdk/types/address.MustLengthPrefix", 0, whyLenPfx},
+	// dependency arithmetic that panics on a value-dependent condition (reviewed: the guard that excludes the condition)
+	{"x/tunnel/keeper.calculateDeviationBPS", "may-panic:cosmossdk.io/math.Int.Quo (panics on division by zero)", 1, "divides by oldPrice only after the oldPrice.IsZero() early return (C08.R3 zero-old-price gate)"},
+	{"x/feeds/keeper.Keeper.CalculatePrices$1", "may-panic:cosmossdk.io/math.Int.Uint64 (panics if the value does not fit uint64)", 1, "a validator's bonded tokens are bounded by the uband supply (about 1.4e14), five orders of magnitude below 2^64; ASSUMPTION about the supply, not proved"},
+	{"x/bandtss/keeper.Keeper.AllocateTokens", "may-panic:cosmossdk.io/math.LegacyDec.QuoTruncate (panics on division by zero)", 1, "divides by len(validMembers) after the len(validMembers) == 0 early return (C14.R4 tss-nothing-if-no-recipient)"},
+	{"x/oracle/keeper.Keeper.AllocateTokens", "may-panic:cosmossdk.io/math.LegacyDec.QuoTruncate (panics on division by zero)", 1, "divides by totalPower after the totalPower == 0 early return (C14.R2)"},
+	{"x/bandtss/keeper.Keeper.AllocateTokens", "may-panic:cosmossdk.io/math.LegacyNewDecWithPrec (panics if prec > 18)", 1, "precision is the constant 2"},
+	{"x/oracle/keeper.Keeper.AllocateTokens", "may-panic:cosmossdk.io/math.LegacyNewDecWithPrec (panics if prec > 18)", 1, "precision is the constant 2"},
+	{"x/bandtss/keeper.Keeper.AllocateTokens", "may-panic:github.com/cosmos/cosmos-sdk/types.Coins.MulInt (panics if the multiplier is zero)", 1, "multiplier is len(validMembers), non-zero after the early return"},
+	{"x/bandtss/keeper.Keeper.GetSigningFee", "may-panic:github.com/cosmos/cosmos-sdk/types.Coins.MulInt (panics if the multiplier is zero)", 1, "multiplier is the current group's threshold; groups are created with threshold >= 1 (MsgTransitionGroup.ValidateBasic; DKG needs threshold commits)"},
+	{"x/bandtss/keeper.Keeper.AllocateTokens", "may-panic:github.com/cosmos/cosmos-sdk/types.Coins.Sub (panics if any amount would go negative)", 1, "subtracts n * trunc(share/n) from the transferred amount (C14.R3 community-fund-is-transferred-minus-paid)"},
+	{"x/oracle/keeper.Keeper.AllocateTokens", "may-panic:github.com/cosmos/cosmos-sdk/types.DecCoins.Sub (panics if any amount would go negative)", 2, "subtracts the truncated community share and the truncated per-validator shares, whose fractions sum to <= 1 because every one is QuoTruncate(totalPower) of a summand of totalPower (C14.R2 share-by-power-fraction; seed C14-4 is the counter-example with Quo)"},
 	{"pkg/bandrng.Rng.NextUint64", "panic", 1, "hmac-drbg Generate fails only when the reseed counter (2^48 requests) is exhausted; an Rng lives for one selection"},
 	{"pkg/filecache.Cache.MustGetFile", "panic", 1, "oracle script files are written to the cache by AddOracleScriptFile before the script record is stored; node-local file loss is an operator fault, not a consensus input"},
 	{"x/bandtss/keeper.Keeper.AddMembers", "call:x/bandtss/types.TSSKeeper.MustGetMembers", 1, "called with the incoming group id of a transition whose group tss created (members exist as long as the group does)"},
@@ -115,6 +126,7 @@ func c02(r *Report) propMeta {
 	r.Rule("C02.R11", "E17 error-return census of the delegation hooks (run from begin-block slashing)")
 	if r.HookChain("hook-chain") {
 		r.ErrorCensus("hook-errors", w.delegationHookRoots(), hookErrTable, 3)
+		r.Census("hook-panics", w.delegationHookRoots(), hookPanicTable, "a staking delegation hook (runs inside begin-block slashing)")
 	}
 
 	r.Rule("C02.R9", "E16 unsigned-subtraction census")
@@ -165,7 +177,7 @@ func c02(r *Report) propMeta {
 			"R2 every explicit panic / Must* call reachable without a recover barrier from a begin/end-block root is in the frozen accepted table (a new one fails with its call path)",
 			"R3 signing creation / packet sending reached from end-block sits under a CacheContext whose writeFn is gated by err==nil, and cross-module routes sit under a defer-recover that assigns the named error result",
 			"R4 orderBeginBlockers/orderEndBlockers are literals of constants containing every module that implements Begin/EndBlock exactly once",
-			"R11 the staking delegation hooks are reached from begin-block slashing with their error returned to BeginBlocker (nine facts read off the SDK source); the origins of the errors the repo's hooks return are censused the same way: the lock veto ErrUnableToUndelegate is such an origin (known finding F5: slashing a redelegation of a delegator whose power is locked halts the chain)", "R10 every origin of an error that a begin/end-block root can return (a returned error fails FinalizeBlock on every node, like a panic) is followed interprocedurally to a fresh error or an SDK keeper call and must be in a reviewed table of 12; the only repo-made one (median of an empty list) is gated by availablePower > 0 (finding F4)", "R9 every unsigned subtraction in consensus-reachable repo code is implied non-wrapping by the comparisons on all paths to it (constants included) or is one of the reviewed data-structure invariants (a wrapped value ends as an out-of-range index, an endless loop or a silently bypassed bound)", "R8 the two atomicity axioms (baseapp.runTx branch-and-write-on-success under recover; ibc-go RecvPacket cache-and-write-on-successful-ack) are read off the dependency source at the go.mod versions", "R7 every error that begin/end-block code tests and then does not propagate is in a frozen, justified table (16 sites today); a new swallowed error fails with its call path", "R6 every governance parameter that consensus-reachable code divides by (integer / or %) is validated positive, and every one used as a percentage (NewDecWithPrec(x,2)) is validated <= 100 in its Params.Validate (finding F3, fixed)", "R5 bandrng.NewRng is called only by the two committee selectors and its inputs derive only from the rolling seed, the id/nonce parameter and the chain id",
+			"R11 the staking delegation hooks are reached from begin-block slashing with their error returned to BeginBlocker (nine facts read off the SDK source); the origins of the errors the repo's hooks return are censused the same way: the lock veto ErrUnableToUndelegate is such an origin (known finding F5: slashing a redelegation of a delegator whose power is locked halts the chain)", "R2 (extended) the census also counts calls of dependency arithmetic that is documented to panic on a value-dependent condition (Int.Quo/Uint64/Int64, LegacyDec.Quo*, Coins.Sub/MulInt, DecCoins.Sub, NewCoin…): 10 sites in begin/end-block code, each with the guard that excludes the condition", "R10 every origin of an error that a begin/end-block root can return (a returned error fails FinalizeBlock on every node, like a panic) is followed interprocedurally to a fresh error or an SDK keeper call and must be in a reviewed table of 12; the only repo-made one (median of an empty list) is gated by availablePower > 0 (finding F4)", "R9 every unsigned subtraction in consensus-reachable repo code is implied non-wrapping by the comparisons on all paths to it (constants included) or is one of the reviewed data-structure invariants (a wrapped value ends as an out-of-range index, an endless loop or a silently bypassed bound)", "R8 the two atomicity axioms (baseapp.runTx branch-and-write-on-success under recover; ibc-go RecvPacket cache-and-write-on-successful-ack) are read off the dependency source at the go.mod versions", "R7 every error that begin/end-block code tests and then does not propagate is in a frozen, justified table (16 sites today); a new swallowed error fails with its call path", "R6 every governance parameter that consensus-reachable code divides by (integer / or %) is validated positive, and every one used as a percentage (NewDecWithPrec(x,2)) is validated <= 100 in its Params.Validate (finding F3, fixed)", "R5 bandrng.NewRng is called only by the two committee selectors and its inputs derive only from the rolling seed, the id/nonce parameter and the chain id",
 		},
 		Undecided: []string{"feasibility of the accepted panic sites (each rests on a store invariant recorded in the table, not proven)", "determinism of dependencies (SDK, go-owasm, IAVL)", "equality of gas across nodes beyond the absence of nondeterministic constructs"},
 		Assume:    []string{"begin/end-block panics are not recovered by the SDK; message panics are (runTx)", "VTA call graph over-approximates dynamic dispatch in repo code", "KV iterators are ordered"},
@@ -338,4 +350,11 @@ var hookErrTable = []errAllow{
 	{"x/restake/keeper.Hooks.BeforeDelegationRemoved", "external:x/restake/types.StakingKeeper.GetDelegatorBonded", "iterates the delegator's delegations in the staking store"},
 	{"x/restake/keeper.Hooks.BeforeDelegationRemoved", "external:x/restake/types.StakingKeeper.GetDelegation", "the delegation being removed exists (the hook runs before its deletion)"},
 	{"x/restake/keeper.Hooks.BeforeDelegationRemoved", "external:x/restake/types.StakingKeeper.GetValidator", "the validator of an existing delegation exists"},
+}
+
+var hookPanicTable = []panicAllow{
+	{"*", "call:github.com/cosmos/cosmos-sdk/codec.BinaryCodec.MustUnmarshal", 0, whyCodecU},
+	{"*", "call:github.com/cosmos/cosmos-sdk/codec.BinaryCodec.MustMarshal", 0, whyCodecM},
+	{"*", "call:github.com/cosmos/cosmos-sdk/types/address.MustLengthPrefix", 0, whyLenPfx},
+	{"x/restake/keeper.Keeper.GetStake", "may-panic:github.com/cosmos/cosmos-sdk/types.NewCoins (panics on invalid, duplicate or negative coins)", 1, "NewCoins() without arguments: the empty stake of an address that never staked"},
 }
